@@ -9,6 +9,7 @@
 EXTENDS Multicast, Json, IOUtils
 VARIABLES hist, pre     \* pre: the model state before the last step (edges mode: one history per (source state, step))
 
+P1 == {1}
 P2 == {1, 2}
 P3 == {1, 2, 3}
 G2 == {1, 2}
@@ -29,9 +30,9 @@ Depth == IF "VERIF_DEPTH" \in DOMAIN IOEnv THEN atoi(IOEnv.VERIF_DEPTH) ELSE 6
 GMInit == MInit /\ FIdle /\ hist = <<>> /\ pre = <<>>
 GMNext == /\ Len(hist) < Depth
           /\ MNext /\ UNCHANGED fvars
-          /\ hist' = Append(hist, mlast') /\ pre' = <<nbr, grp, ann>>
+          /\ hist' = Append(hist, mlast') /\ pre' = <<nbr, pend, grp, ann>>
 GMSpec == GMInit /\ [][GMNext]_<<mvars, fvars, hist, pre>>
-MEdgeView == <<pre, nbr, grp, ann, mlast>>
+MEdgeView == <<pre, nbr, pend, grp, ann, mlast>>
 MScn == [par |-> [kind |-> "member", peers |-> Peer, groups |-> Group, maxknown |-> MaxKnown], ops |-> hist]
 EmitMAll  == hist # <<>> => PrintT(<<"SCN", ToJson(MScn)>>)
 EmitMFull == Len(hist) = Depth => PrintT(<<"SCN", ToJson(MScn)>>)
@@ -39,19 +40,19 @@ EmitMFull == Len(hist) = Depth => PrintT(<<"SCN", ToJson(MScn)>>)
 \* fill: group 1 gets k known peers at once (k around the threshold), then the usual transitions
 Fill(k) == /\ hist = <<>>
            /\ grp' = [grp EXCEPT ![1] = [ex |-> TRUE, conn |-> {}, kept |-> {}, known |-> 1..k]]
-           /\ UNCHANGED <<nbr, ann>>
+           /\ UNCHANGED <<nbr, pend, ann>>
            /\ mlast' = [op |-> "fill", g |-> 1, k |-> k]
 \* generator's prune: one admissible outcome (drop the smallest ids), no enumeration of subsets
 RECURSIVE DropMin(_, _)
 DropMin(S, k) == IF k <= 0 \/ S = {} THEN S ELSE DropMin(S \ {CHOOSE x \in S : \A y \in S : x <= y}, k - 1)
 GPrune(g) == /\ grp[g].ex
              /\ grp' = [grp EXCEPT ![g].known = DropMin(@, Cardinality(@) - MaxKnown)]
-             /\ UNCHANGED <<nbr, ann>>
+             /\ UNCHANGED <<nbr, pend, ann>>
              /\ mlast' = [op |-> "prune", g |-> g]
 GFNext == /\ Len(hist) < Depth
           /\ \/ \E k \in {MaxKnown - 1, MaxKnown, MaxKnown + 1, MaxKnown + 3} : Fill(k)
              \/ hist # <<>> /\ \/ GPrune(1)
-                               \/ \E p \in {1, 2, MaxKnown + 2} : Connect(p) \/ Disconnect(p) \/ Notify(p, TRUE, {1}) \/ Notify(p, FALSE, {1})
+                               \/ \E p \in {1, 2, MaxKnown + 2} : Connect(p) \/ NbrDown(p) \/ DisconnectEvent(p) \/ Notify(p, TRUE, {1}) \/ Notify(p, FALSE, {1})
                                \/ \E p \in {1, 2, MaxKnown + 2}, b \in BOOLEAN : Add(1, p, b) \/ Remove(1, p, b)
           /\ UNCHANGED fvars
           /\ hist' = Append(hist, mlast') /\ pre' = <<>>
